@@ -159,6 +159,9 @@ func GenConfig(prop, tier string, seed uint64) Config {
 	if prop == "C23" && c.KF != "" && r.Chance(0.6) {
 		c.KF = []string{"series-ref-reused-after-snapshot-restart", "snapshot-kept-when-head-chunk-file-lost-chunks-at-a-chunk-boundary"}[r.Intn(2)]
 	}
+	if prop == "C12" && (c.KF != "" && r.Chance(0.6) || c.KF == "" && r.Chance(0.1)) {
+		c.KF = "not-counter-reset-hint-kept-after-deleted-predecessor"
+	}
 	if prop == "C52" && c.KF != "" && r.Chance(0.4) {
 		c.KF = "head-chunks-gauge-miscounts-mixed-type-ooo-chunks"
 	}
@@ -231,6 +234,8 @@ func profileWeights(prop string, c Config, r *prng.R) weights {
 		w.setOOO = 0 // the window decides which sample kinds C52 runs may append (see TagGaugeOOOMixed)
 	case "C53", "C23":
 		w.restart = 6
+	case "C11", "C12":
+		w.mmap, w.compact, w.compactOOO, w.restart, w.del, w.burst = 6, 8, 4, 4, 2, 24
 	}
 	if c.OOOWindow == 0 && prop != "C02" && prop != "C52" {
 		w.setOOO = 2
@@ -322,6 +327,9 @@ func genKind(r *prng.R, prop string) int {
 
 func genAdd(r *prng.R, cfg Config, prop string, slot int) Op {
 	o := Op{K: "add", Slot: slot, S: r.Intn(cfg.NSeries), VK: genKind(r, prop), HM: r.Intn(histgen.NModes), HS: r.Uint64() >> 1, Ref: r.Intn(2)}
+	if (prop == "C11" || prop == "C12") && r.Chance(0.55) {
+		o.HM = histgen.Grow // long reset-free stretches make NotCounterReset hints (and forward inserts) frequent
+	}
 	switch r.Intn(10) {
 	case 0, 1, 2, 3:
 		o.TB, o.TO = "now", int64(r.Range(0, 3))
